@@ -142,6 +142,27 @@ def snapshot_library_state():
                 _snap_namespace(v, vars(v))
 
 
+def adopt(owner, *names):
+    """Harness seams: make the CURRENT value of these names of a library module / class the
+    baseline that restore_library_state() keeps (call it after patching a simple-valued or new name)."""
+    snap = _lib_snap.get(id(owner))
+    if snap is None:
+        return
+    _, known, simple, empties = snap
+    ns = vars(owner)
+    known = set(known)
+    for n in names:
+        simple[:] = [(k, v) for k, v in simple if k != n]
+        empties[:] = [(k, c) for k, c in empties if k != n]
+        if n in ns:
+            known.add(n)
+            if _is_simple(ns[n]):
+                simple.append((n, ns[n]))
+        else:
+            known.discard(n)
+    _lib_snap[id(owner)] = (owner, frozenset(known), simple, empties)
+
+
 def restore_library_state():
     for owner, names, simple, empties in _lib_snap.values():
         ns = vars(owner)
@@ -728,6 +749,7 @@ def install(tty, stdout=None, clock=None):
     u = L.utils
     W.tty, W.stdout, W.clock = tty, stdout, clock
     u._tty_fd = TTY_FD
+    adopt(u, "_tty_fd")
     u.os = _OsProxy(tty)
     u.termios = _TermiosProxy(tty)
     u.fcntl = _FcntlProxy(tty)
@@ -750,6 +772,7 @@ def uninstall():
     o = L.orig
     u = L.utils
     u._tty_fd = o["utils_tty_fd"]
+    adopt(u, "_tty_fd")
     u.os, u.select, u.termios, u.fcntl = o["utils_os"], o["utils_select"], o["utils_termios"], o["utils_fcntl"]
     u.monotonic, u._get_terminal_size = o["utils_monotonic"], o["utils_gts"]
     L._renderable.termios = o["rend_termios"]
